@@ -20,6 +20,8 @@ EXHAUSTIBLE = (
     r"^std::iter::Rev<", r"^std::iter::Enumerate<", r"^linear_hashtbl::raw::Drain<",
     r"^linear_hashtbl::raw::IntoIter<", r"^std::collections::hash_map::IntoIter<",
     r"^std::option::IntoIter<",
+    # Flatten yields None only after the outer iterator and both inner cursors are exhausted
+    r"^std::iter::Flatten<(std::vec|std::array|smallvec)::IntoIter<",
 )
 
 # Vetted destructors: ADTs that (deeply) contain edges and have a `Drop` impl.
